@@ -71,6 +71,14 @@ func (e *Embed) GenerateOutput(textOnly bool) string {
 	tagName := dom.TagName(e.Element)
 	if tagName == "blockquote" || tagName == "iframe" {
 		if cloned := domutil.CloneAndProcessTree(e.Element, nil); cloned != nil {
+			// The embedded element itself was checked by its extractor. Frames nested in
+			// it (e.g. inside the blockquote of a tweet) were not, so they are left out.
+			for _, frame := range dom.QuerySelectorAll(cloned, "iframe,object,embed") {
+				if frame != cloned && frame.Parent != nil {
+					frame.Parent.RemoveChild(frame)
+				}
+			}
+
 			dom.AppendChild(embed, cloned)
 		}
 	}
